@@ -16,7 +16,7 @@ def is_transparent_construct(n):
     c = n.get("c", ())
     if len(c) == 2 and c[1] is not None and c[1]["k"] == "defarg" and n.get("cls") == "std::basic_string":
         return True
-    return len(c) == 1 and (n.get("copy") or n.get("cls") in ("std::basic_string_view", "std::basic_string", "std::function"))
+    return len(c) == 1 and (n.get("copy") or n.get("cls") in ("std::basic_string_view", "std::basic_string", "std::function", "__gnu_cxx::__normal_iterator"))
 
 
 def skip(n):
